@@ -166,7 +166,7 @@ def _jsonable_obj(obj):
     return obj
 
 
-def text_channels(shape, window=(0, 1, 7)):
+def text_channels(shape, window=(0, 1, 7), shard=None, nshards=1):
     sh = BY_NAME[shape]
 
     def harness():
@@ -176,6 +176,8 @@ def text_channels(shape, window=(0, 1, 7)):
         finally:
             S.window = None
         if shape == "unions" and isinstance(obj.get("u"), str):
+            return None
+        if shard is not None and S.shard(nshards) != shard:
             return None
         if S.replaying is not None:
             results = _text_once(shape, obj)
@@ -264,8 +266,59 @@ def smt_layer(rep, tier):
         rep.queries[-1]["result"] = "sat-expected" if r == "sat" else r
 
 
+def ast_layer(rep, tier):
+    """load_basic (the hand-written pre-loader every text value passes first, in every parser mode) agrees with the JSON type
+    of every JSON number literal - decided on an encoding generated from its source AST."""
+    from .. import ast2smt as A
+    import jsonargparse._loaders_dumpers as ld
+
+    n_, bad_ = A.validate_builtin_models(30 if tier == "quick" else 100)
+    if bad_:
+        raise Inconclusive(f"model of int()/float() acceptance disagrees with the builtins: {bad_[:4]}")
+    se = A.SymExec(ld.load_basic)
+    outs = se.run()
+    for w in ["0", "-0", "12", "-3", "1.5", "1e5", "1E5", "-1e-5", "1e+5", "0.0", "-0.5e-3", "10", "1.0e10", "true", "null", "x"]:
+        k = A.concrete_kind(ld.load_basic, w)
+        k = "return:name:not_loaded" if k.startswith("return:name") else k
+        e = A.encoded_kinds(se, outs, w)
+        if e != {k}:
+            raise Inconclusive(f"AST encoding of load_basic disagrees with the real function on {w!r}: {k} vs {sorted(e)}")
+    s = se.param
+    num = z3.InRe(s, rx.lang(ya.JSON_NUMBER, "match"))
+    isint = z3.InRe(s, rx.lang(ya.JSON_INT, "match"))
+
+    def kinds(*ks):
+        cs = [o.cond() for o in outs if o.kind in ks]
+        return z3.Or(*cs) if cs else z3.BoolVal(False)
+
+    q = rx.Q(rep, timeout_ms=120000, cross_check=False)
+    bound = z3.Length(s) <= (16 if tier == "quick" else 24)
+    checks = [
+        ("load_basic: a JSON integer literal is never read as float/bool/null (|t|<=%d)" % (16 if tier == "quick" else 24), [bound, isint, kinds("return:float", "return:True", "return:False", "return:None")]),
+        ("load_basic: a JSON number with fraction/exponent is never read as int/bool/null", [bound, num, z3.Not(isint), kinds("return:int", "return:True", "return:False", "return:None")]),
+        ("load_basic: never raises on a JSON number literal", [bound, num, kinds(*[o.kind for o in outs if o.kind.startswith("raise")])]),
+    ]
+    for name, cons in checks:
+        r, m = q.ask(name, *cons)
+        if r == "unsat":
+            rep.nontrivial += 1
+            continue
+        w = rx.decode(m.eval(s, model_completion=True))
+        payload = dict(literal=w)
+        res = run_native("props.c05", "replay_literal", payload)
+        if res.get("reproduced"):
+            rep.violation(f"{name}: literal {w!r}: {res.get('detail')}", dict(module="props.c05", func="replay_literal", payload=payload))
+        else:
+            rep.inconc(f"{name}: model {w!r} did not reproduce through the API")
+    # witness (concrete, the sat search over the replace chain is slow): load_basic itself reads '1.5' and '1e5' as float
+    for w in ("1.5", "1e5"):
+        if A.encoded_kinds(se, outs, w) != {"return:float"}:
+            raise Inconclusive(f"vacuity: the encoding does not read {w!r} as float")
+    rep.nontrivial += 1
+
+
 def main(rep, tier):
-    rep.functions = FUNCTIONS
+    rep.functions = FUNCTIONS + ["jsonargparse._loaders_dumpers.load_basic (E-AST: symbolic execution of its source AST into z3 string constraints)"]
     rep.stubs = [FORMAT_STUBS_NOTE]
     rep.rule = ("E-SMT: one evaluation per query (non-trivial = unsat inclusion); E-CH object channels: one path per branch of the real code on the "
                 "shape's symbolic leaves; text channels: one path per solver-chosen concrete leaf vector; non-trivial = all channels compared")
@@ -279,9 +332,19 @@ def main(rep, tier):
         "text channels run on concrete leaves from the window {0,1,7} (floats from a menu), outside the tracer",
     ]
     smt_layer(rep, tier)
+    ast_layer(rep, tier)
     jobs = [dict(module="c05", func="obj_channels", kwargs=dict(shape=s), timeout=200 if tier == "quick" else 900) for s in shapes]
     tshapes = shapes if tier == "thorough" else ["scalars", "lists", "groups", "subcommands", "dicts"]
-    tjobs = [dict(module="c05", func="text_channels", kwargs=dict(shape=s), timeout=200 if tier == "quick" else 900) for s in tshapes]
+    tjobs = []
+    for s_ in tshapes:
+        n = {"scalars": 6, "lists": 3, "dicts": 2, "restricted": 3, "unions": 3}.get(s_, 1)
+        for sh in range(n):
+            kw = dict(shape=s_)
+            if s_ == "scalars":
+                kw["window"] = [0, 7]
+            if n > 1:
+                kw.update(shard=sh, nshards=n)
+            tjobs.append(dict(module="c05", func="text_channels", kwargs=kw, timeout=200 if tier == "quick" else 900))
     results = run_jobs(jobs + tjobs)
     fails = absorb(rep, results, require_tags=("ok",))
     groups = {}
